@@ -1,6 +1,7 @@
 pub mod c02;
 pub mod c03;
 pub mod c04;
+pub mod c07;
 pub mod c10;
 pub mod c14;
 pub mod c15;
